@@ -14,12 +14,12 @@ from report import Check
 UNITS = """src/Neigh/ANeigh.cpp src/Neigh/NeighMoving.cpp src/Neigh/NeighBench.cpp src/Neigh/NeighCell.cpp src/Neigh/NeighUnique.cpp
 src/Neigh/NeighImage.cpp src/Variogram/Vario.cpp src/Variogram/AVario.cpp src/Estimation/KrigingSystem.cpp src/Stats/Classical.cpp
 src/Covariances/ACov.cpp src/Covariances/ACovAnisoList.cpp src/Simulation/CalcSimuTurningBands.cpp src/Drifts/DriftList.cpp
-src/Model/Model.cpp src/Core/krige.cpp""".split()
+src/Model/Model.cpp src/Core/krige.cpp src/Simulation/CalcSimuSubstitution.cpp src/Simulation/CalcSimuPartition.cpp""".split()
 CALC_UNITS = """src/Calculators/ACalcDbToDb.cpp src/Calculators/ACalcDbVarCreator.cpp src/Calculators/ACalcInterpolator.cpp
 src/Calculators/ACalculator.cpp src/Calculators/CalcGridToGrid.cpp src/Calculators/CalcMigrate.cpp src/Calculators/CalcStatistics.cpp
 src/Estimation/CalcGlobal.cpp src/Estimation/CalcImage.cpp src/Estimation/CalcKriging.cpp src/Estimation/CalcKrigingFactors.cpp
 src/Estimation/CalcSimpleInterpolation.cpp src/Simulation/ACalcSimulation.cpp src/Calculators/CalcSimuPost.cpp
-src/Anamorphosis/CalcAnamTransform.cpp""".split()
+src/Anamorphosis/CalcAnamTransform.cpp src/Simulation/CalcSimuSubstitution.cpp src/Simulation/CalcSimuPartition.cpp""".split()
 
 # (function, variable) loops that are meant to see every sample; one row each, with the reason (confirmed by reading)
 EXEMPT = {
